@@ -67,15 +67,17 @@ PROPS = {
                                      'arrays, modules, delay / smoothing / statistical built-ins are outside the vocabulary checked',
                                      'known finding: an unknown function is translated to 0 with only a log line (does not fail loudly)']),
     'C04': dict(
-        mods=[], k1=[], level='other', engines=['contracts.c04_euler'],
+        mods=['contracts.c04_runtime'], k1=['simulation_model.memoize'], level='other', engines=['contracts.c04_euler'],
         harness='verif/native/c04_harness.py', harness_budget=(30, 150), always_harness=True,
-        explanation='BOUNDED in structure, all values / times / run specs: every stock/flow structure up to the bound (0..3 inflows x 0..3 outflows, thorough 4; '
+        explanation='PROVED (K1) on the runtime every transpiled model runs (simulation_model.memoize, extracted mechanically from the Jinja template on every run): the '
+                    'equation is evaluated at the key the result is stored under, that key is the grid point next to the argument whenever the argument is within '
+                    'the tolerance of it, a present key is never re-evaluated, no other entry changes. BOUNDED in structure, all values / times / run specs: every stock/flow structure up to the bound (0..3 inflows x 0..3 outflows, thorough 4; '
                     'non-negative, bidirectional, mixed; spaced names; chained stocks) is transpiled by the real pipeline and each generated equation text is proved '
                     '(z3 reals, memo uninterpreted) to be the init / explicit-Euler step of its stock and max(0,.) / identity of its flow. The floating-point '
                     'grid behaviour (one integration step per grid interval for decimal, binary and reciprocal dt, several start times), graphical functions, the '
                     'path through bptk scenario files and the equality with the same model in the SD DSL are enumerated natively on every run (bounded search)',
         assumptions=[], not_decided=['bounded stand-in, never counted as proved: structures beyond the bound; run specs outside the enumeration (5 start times x 18 dt values)',
-                                     'no contract is discharged on the generated runtime (memoize / LERP live in a jinja template and use numpy / scipy): executed, not verified']),
+                                     'LERP (numpy / scipy) and the other runtime helpers are executed, not verified; whether a floating-point t-self.dt really lies within the snapping tolerance is decided by the native enumeration, not by the real-arithmetic contract']),
     'C10': dict(
         mods=['contracts.c10_shapes'], k1=['DotOperator.resolve_dimensions', 'AdditionOperator.resolve_dimensions', 'SubtractionOperator.resolve_dimensions',
                                            'DivisionOperator.resolve_dimensions', 'NumericalMultiplicationOperator.resolve_dimensions',
